@@ -170,10 +170,12 @@ func TestC16(t *testing.T) {
 		contexts := c16Contexts()
 		c.Sub("strings", func(s *Sub) {
 			var k int64
-			for _, v := range []string{"", "abc", "12", "০৫", " ", "k", "1.5", "nan", "সম\u09df", "ক\u09c7\u09be", "cafe\u0301", "\u09dc"} {
+			for _, v := range []string{"", "abc", "12", "০৫", " ", "k", "1.5", "nan", "সম\u09df", "ক\u09c7\u09be", "cafe\u0301", "\u09dc",
+				// strings that begin with or consist of characters a reader might be tempted to strip
+				"\ufeffabc", "\ufeff", "\u200b", "x\u00a0y", "\ufeff21"} {
 				c.c16Group(s, "strings", fmt.Sprintf("%q", v), c16StringProducers(v), contexts, &k)
 			}
-			c.Ev.MarkExhaustive(fmt.Sprintf("%d contexts x 12 string values (incl. strings that are not NFC-stable) x every producer against the literal producer (8-10 producers each)", len(contexts)))
+			c.Ev.MarkExhaustive(fmt.Sprintf("%d contexts x 17 string values (incl. strings that are not NFC-stable and strings beginning with a byte-order mark or a zero-width space) x every producer against the literal producer (8-10 producers each)", len(contexts)))
 		})
 		// integers beyond 2^53 that only the bitwise operators can produce exactly: the same value reached
 		// through every storage / call path must keep behaving as the directly computed one
